@@ -138,6 +138,30 @@ func serveDiff(args []string) {
 				stats["recovered"]++
 			}
 			stats[fmt.Sprintf("status:%d", h.Real[i].Status)]++
+			for k, v := range h.Spec[i] {
+				stats["spec:"+k+"="+v]++
+				if strings.HasPrefix(k, "C") && v != "1" && !(k == "C07" && h.Spec[i]["F09"] == "1") && !(k == "C10" && h.Spec[i]["F18"] == "1") && stats["shown:"+k] < *show {
+					stats["shown:"+k]++
+					fmt.Printf("SPEC-FAIL %s req %d entry=%s ae=%q prior=%q recover=%v hasRS=%v enc=%v status=%d ce=%q coded=%v esc=%v recov=%d bodylen=%d\n", k, i, h.Reqs[i].Entry, h.Reqs[i].AE, h.Reqs[i].Prior, h.Cfg.Recover, h.Cfg.HasRS, h.Cfg.Enc, h.Real[i].Status, h.Real[i].CE, h.Real[i].Coded, h.Real[i].Escaped != nil, h.Real[i].Recov, len(h.Real[i].Body))
+					for _, e := range h.Real[i].Log {
+						fmt.Printf("   ev %s post=%v attrs=%v wr=%v\n", e.Stage, e.Post, e.Attrs, e.Wrappers)
+					}
+					for _, f := range h.Cfg.CF {
+						fmt.Printf("   cf%d %s pre=%d post=%d\n", f.ID, f.Kind, len(f.Pre), len(f.Post))
+					}
+					for sid, fs := range h.Cfg.SvcF {
+						for _, f := range fs {
+							fmt.Printf("   svc%d sf%d %s pre=%v post=%v\n", sid, f.ID, f.Kind, actKinds(f.Pre), actKinds(f.Post))
+						}
+					}
+					for rid, rx := range h.Cfg.RouteX {
+						for _, f := range rx.Filters {
+							fmt.Printf("   route%d rf%d %s pre=%v post=%v\n", rid, f.ID, f.Kind, actKinds(f.Pre), actKinds(f.Post))
+						}
+						fmt.Printf("   route%d script=%v enc=%v\n", rid, actKinds(rx.Script), rx.Enc)
+					}
+				}
+			}
 			if a != b {
 				dis++
 				if dis <= *show {
@@ -147,4 +171,16 @@ func serveDiff(args []string) {
 		}
 	}
 	fmt.Printf("requests=%d disagreements=%d stats=%v skipped=%d\n", total, dis, stats, serve.SkippedBuild)
+}
+
+func actKinds(as []serve.Act) []string {
+	var out []string
+	for _, a := range as {
+		if a.K == "sa" || a.K == "panic" {
+			out = append(out, a.K+":"+a.B+"="+a.V)
+		} else {
+			out = append(out, a.K)
+		}
+	}
+	return out
 }
